@@ -10,6 +10,8 @@
 #include <string>
 #include <vector>
 #include <dlfcn.h>
+#include <chrono>
+#include <time.h>
 static std::map<std::string, std::vector<uint64_t>> vals; static std::map<std::string, size_t> pos;
 static int failed;
 static uint64_t next(const char* name) {
@@ -32,6 +34,8 @@ void vs_file(const char* path, const char* data, unsigned long len) {
    for (char* p = buf + 1; *p; ++p) if (*p == '/') { *p = 0; mkdir(buf, 0700); *p = '/'; }
    FILE* f = fopen(path, "wb"); if (f) { fwrite(data, 1, len, f); fclose(f); }
 }
+static unsigned long long vs_clock_override = 0;
+void vs_setclock(uint64_t ns) { vs_clock_override = ns; }
 static int vs_pid_override = 0;
 void vs_setpid(int pid) { vs_pid_override = pid; }
 // getpid() of the harness and of the library sources linked into this binary; the real one unless vs_setpid() was called
@@ -58,4 +62,12 @@ int main(int argc, char** argv) {
    reinterpret_cast<void (*)(uint64_t, uint64_t, uint64_t, uint64_t, uint64_t, uint64_t)>(sym)(a[0], a[1], a[2], a[3], a[4], a[5]);
    printf(failed ? "FAILED\n" : "OK\n");
    return failed;
+}
+
+// system_clock::now() of the harness and of the library sources linked into this binary: the instant set with vs_setclock(),
+// the real clock otherwise
+std::chrono::system_clock::time_point std::chrono::system_clock::now() noexcept {
+   if (vs_clock_override) return time_point(duration(std::chrono::nanoseconds(vs_clock_override)));
+   timespec ts; clock_gettime(CLOCK_REALTIME, &ts);
+   return time_point(duration(std::chrono::seconds(ts.tv_sec) + std::chrono::nanoseconds(ts.tv_nsec)));
 }
